@@ -69,7 +69,6 @@ import (
 const (
 	c35vMaxLag = 2  // a recipient's persisted-events lag the ledger by at most this many blocks
 	c35vH0     = 10 // ledger height of the initial state
-	c35vPfx    = "vh."
 )
 
 // ---------------------------------------------------------------- fake ledger (reference model)
@@ -156,14 +155,27 @@ type c35vEnv struct {
 	stateless *stateless.ValidatorPool
 	stateful  *stateful.ValidatorPool
 	maxProp   int
+	pfx       string // prefix of this unit's event labels and outcome classes ("vh." / "rs.")
+	// rootA0: the last block of the initial state carried the sender's nonce-0
+	// transaction A0 (unit "restart"); A0 is then history, not part of the alphabet
+	rootA0 bool
+	fixed  []*c35vTx
 }
 
 func (e *c35vEnv) add(id string, tx *types.Transaction, evm bool, nonce, price uint64) {
+	e.register(id, tx, evm, nonce, price, true)
+}
+
+func (e *c35vEnv) register(id string, tx *types.Transaction, evm bool, nonce, price uint64, alphabet bool) {
 	t := &c35vTx{id: id, tx: tx, evm: evm, nonce: nonce, price: price}
 	if _, dup := e.byHash[tx.Hash()]; dup {
 		panic("duplicate alphabet tx " + id)
 	}
-	e.txs = append(e.txs, t)
+	if alphabet {
+		e.txs = append(e.txs, t)
+	} else {
+		e.fixed = append(e.fixed, t)
+	}
 	e.byHash[tx.Hash()] = t
 	e.byID[id] = t
 	if evm {
@@ -177,6 +189,20 @@ func (e *c35vEnv) add(id string, tx *types.Transaction, evm bool, nonce, price u
 // node's pool); native transactions.
 func (e *c35vEnv) buildAlphabet(thorough bool) {
 	e.byHash, e.byID = map[common.Uint256]*c35vTx{}, map[string]*c35vTx{}
+	if e.rootA0 {
+		// unit "restart": A0 was sealed in the last block of the initial state; the
+		// alphabet is the sender's NEXT nonces: 1 (two competing transactions), 2, 3
+		e.register("A0", c35vEvmTx(0, 1, 0), true, 0, 1, false)
+		e.add("A1", c35vEvmTx(1, 1, 0), true, 1, 1)
+		e.add("A1x", c35vEvmTx(1, 2, 1), true, 1, 2)
+		e.add("A2", c35vEvmTx(2, 1, 0), true, 2, 1)
+		if thorough {
+			e.add("A2x", c35vEvmTx(2, 2, 1), true, 2, 2)
+			e.add("A3", c35vEvmTx(3, 1, 0), true, 3, 1)
+		}
+		e.add("N1", c35vNativeTx(1), false, 0, 1)
+		return
+	}
 	e.add("A0", c35vEvmTx(0, 1, 0), true, 0, 1)
 	e.add("A0x", c35vEvmTx(0, 2, 1), true, 0, 2)
 	e.add("A1", c35vEvmTx(1, 1, 0), true, 1, 1)
@@ -239,7 +265,11 @@ func (e *c35vEnv) init() interface{} {
 	st.server = &Server{incrValidator: increment.NewIncrementValidator(20)}
 	// a node in steady state: the last two (empty) blocks were persisted and both events delivered
 	for i := 0; i < 2; i++ {
-		blk := e.persist(st, nil)
+		var txs []*c35vTx
+		if e.rootA0 && i == 1 {
+			txs = e.fixed // the last block carried A0: the account nonce is 1, the validator window remembers it
+		}
+		blk := e.persist(st, txs)
 		e.toPool(st, blk, false)
 		st.server.incrValidator.AddBlock(blk)
 	}
@@ -264,25 +294,25 @@ func (e *c35vEnv) events(si interface{}) []string {
 	}
 	var ev []string
 	for _, t := range e.txs {
-		ev = append(ev, c35vPfx+"sub:"+t.id)
+		ev = append(ev, e.pfx+"sub:"+t.id)
 	}
-	ev = append(ev, c35vPfx+"prop")
+	ev = append(ev, e.pfx+"prop")
 	if e.canSeal(st) {
-		ev = append(ev, c35vPfx+"call")
+		ev = append(ev, e.pfx+"call")
 		for _, t := range e.txs {
 			if e.committable(st, t) {
-				ev = append(ev, c35vPfx+"seal:"+t.id)
+				ev = append(ev, e.pfx+"seal:"+t.id)
 			}
 		}
-		ev = append(ev, c35vPfx+"seal:-")
+		ev = append(ev, e.pfx+"seal:-")
 	}
 	if len(st.qPool) > 0 {
-		ev = append(ev, c35vPfx+"evp", c35vPfx+"evpr")
+		ev = append(ev, e.pfx+"evp", e.pfx+"evpr")
 	}
 	if len(st.qVal) > 0 {
-		ev = append(ev, c35vPfx+"evv")
+		ev = append(ev, e.pfx+"evv")
 	}
-	ev = append(ev, c35vPfx+"vclean")
+	ev = append(ev, e.pfx+"vclean")
 	return ev
 }
 
@@ -302,13 +332,13 @@ func (e *c35vEnv) submit(st *c35vSys, t *c35vTx) {
 	res, inPool := st.svc.VerifC35Submit(t.tx)
 	switch {
 	case res.Err.Success():
-		st.cls = append(st.cls, "vh.submit:accepted")
+		st.cls = append(st.cls, e.pfx+"submit:accepted")
 	case inPool:
-		st.cls = append(st.cls, "vh.submit:refused-already-in-pool")
+		st.cls = append(st.cls, e.pfx+"submit:refused-already-in-pool")
 	case strings.Contains(res.Desc, "lower nonce"):
-		st.cls = append(st.cls, "vh.submit:refused:lower-nonce")
+		st.cls = append(st.cls, e.pfx+"submit:refused:lower-nonce")
 	default:
-		st.cls = append(st.cls, "vh.submit:refused:"+strings.Replace(res.Err.Error(), " ", "-", -1))
+		st.cls = append(st.cls, e.pfx+"submit:refused:"+strings.Replace(res.Err.Error(), " ", "-", -1))
 	}
 }
 
@@ -318,7 +348,9 @@ func (e *c35vEnv) propose(st *c35vSys) (prop []*c35vTx, vk, vd string) {
 	blkNum := st.m.height + 1 // the block after the last sealed one
 	_, end0 := st.server.incrValidator.BlockRange()
 	validHeight := st.server.validHeight(blkNum)
-	_, end1 := st.server.incrValidator.BlockRange()
+	start1, end1 := st.server.incrValidator.BlockRange()
+	// the validator was reset (Clean by a consensus stop/restart or by validHeight itself) since the initial state
+	afterReset := end1 == 0 || start1 > c35vH0-1
 	window := "kept"
 	if end1 == 0 {
 		window = "dropped"
@@ -341,6 +373,9 @@ func (e *c35vEnv) propose(st *c35vSys) (prop []*c35vTx, vk, vd string) {
 	sfx := ""
 	if lag != "none" {
 		sfx = "@persist-event-in-flight"
+	}
+	if afterReset && end1 != 0 {
+		sfx += "@validator-refilled-after-reset"
 	}
 	var ids []string
 	for _, tx := range txs {
@@ -385,12 +420,23 @@ func (e *c35vEnv) propose(st *c35vSys) (prop []*c35vTx, vk, vd string) {
 	if len(prop) > 2 {
 		n = "n>2"
 	}
-	st.cls = append(st.cls, "vh.propose:lag="+lag+",window="+window, "vh.proposal:"+n)
+	st.cls = append(st.cls, e.pfx+"propose:lag="+lag+",window="+window, e.pfx+"proposal:"+n)
 	if len(avl) > len(prop) {
-		st.cls = append(st.cls, "vh.proposal:validator-filtered")
+		st.cls = append(st.cls, e.pfx+"proposal:validator-filtered")
+	}
+	if afterReset && end1-start1 >= 2 {
+		// the window was refilled with at least two blocks after a reset
+		c := e.pfx + "propose:after-reset,refilled>=2"
+		st.cls = append(st.cls, c)
+		if len(avl) > len(prop) {
+			st.cls = append(st.cls, c+",validator-filtered")
+		}
+		if len(prop) > 0 {
+			st.cls = append(st.cls, c+",non-empty")
+		}
 	}
 	if nre > 0 {
-		st.cls = append(st.cls, "vh.proposal:expired-reverified")
+		st.cls = append(st.cls, e.pfx+"proposal:expired-reverified")
 	}
 	if len(prop) > e.maxProp {
 		e.maxProp = len(prop)
@@ -405,10 +451,10 @@ func (e *c35vEnv) seal(st *c35vSys, txs []*c35vTx) {
 }
 
 func (e *c35vEnv) known(ev string) bool {
-	if !strings.HasPrefix(ev, c35vPfx) {
+	if !strings.HasPrefix(ev, e.pfx) {
 		return false
 	}
-	f := strings.SplitN(strings.TrimPrefix(ev, c35vPfx), ":", 2)
+	f := strings.SplitN(strings.TrimPrefix(ev, e.pfx), ":", 2)
 	switch f[0] {
 	case "prop", "call", "evp", "evpr", "evv", "vclean":
 		return len(f) == 1
@@ -425,7 +471,7 @@ func (e *c35vEnv) apply(si interface{}, ev string) (vk, vd string) {
 	ledger.DefLedger = st.led
 	st.cls = nil
 	pn := vh.Catch(func() {
-		f := strings.SplitN(strings.TrimPrefix(ev, c35vPfx), ":", 2)
+		f := strings.SplitN(strings.TrimPrefix(ev, e.pfx), ":", 2)
 		switch f[0] {
 		case "sub":
 			e.submit(st, e.byID[f[1]])
@@ -436,33 +482,33 @@ func (e *c35vEnv) apply(si interface{}, ev string) (vk, vd string) {
 			prop, vk, vd = e.propose(st)
 			if vk == "" && len(prop) > 0 && e.canSeal(st) {
 				e.seal(st, prop)
-				st.cls = append(st.cls, "vh.seal:own-proposal")
+				st.cls = append(st.cls, e.pfx+"seal:own-proposal")
 			}
 		case "seal":
 			if f[1] == "-" {
 				e.seal(st, nil)
-				st.cls = append(st.cls, "vh.seal:empty")
+				st.cls = append(st.cls, e.pfx+"seal:empty")
 			} else if t := e.byID[f[1]]; e.committable(st, t) && e.canSeal(st) {
 				e.seal(st, []*c35vTx{t})
-				st.cls = append(st.cls, "vh.seal:foreign-single")
+				st.cls = append(st.cls, e.pfx+"seal:foreign-single")
 			}
 		case "evp", "evpr":
 			if len(st.qPool) > 0 {
 				blk := st.qPool[0]
 				st.qPool = st.qPool[1:]
 				e.toPool(st, blk, f[0] == "evpr")
-				st.cls = append(st.cls, "vh.event-to-pool")
+				st.cls = append(st.cls, e.pfx+"event-to-pool")
 			}
 		case "evv":
 			if len(st.qVal) > 0 {
 				blk := st.qVal[0]
 				st.qVal = st.qVal[1:]
 				st.server.incrValidator.AddBlock(blk) // Server.handleBlockPersistCompleted
-				st.cls = append(st.cls, "vh.event-to-validator")
+				st.cls = append(st.cls, e.pfx+"event-to-validator")
 			}
 		case "vclean":
 			st.server.incrValidator.Clean()
-			st.cls = append(st.cls, "vh.validator-reset")
+			st.cls = append(st.cls, e.pfx+"validator-reset")
 		}
 	})
 	if pn != "" {
@@ -516,8 +562,20 @@ func (e *c35vEnv) check(si interface{}, hist []string) (string, string) {
 	return "", ""
 }
 
-func TestVerif_C35_validheight(t *testing.T) {
-	r := vh.Start(t, "C35", "validheight")
+func TestVerif_C35_validheight(t *testing.T) { c35vRun(t, "validheight", "vh.", false) }
+
+// Unit "restart": the same search from a second initial state, in which the
+// validator window (and the chain) already holds a block with the sender's
+// nonce-0 transaction, over the sender's NEXT nonces and one level deeper: the
+// histories "the validator is reset after it has seen the sender (consensus
+// stop/restart, or validHeight finding the window out of step), is refilled by
+// at least two further blocks of which one carries the sender's next nonce
+// (sealed elsewhere while a competing transaction sits in this node's pool),
+// and a proposal is built" all lie within the depth.
+func TestVerif_C35_restart(t *testing.T) { c35vRun(t, "restart", "rs.", true) }
+
+func c35vRun(t *testing.T, unit, pfx string, rootA0 bool) {
+	r := vh.Start(t, "C35", unit)
 	defer r.Finish()
 	_ = log.Log().SetDebugLevel(log.FatalLog)
 	saveLedger, saveCfg := ledger.DefLedger, *config.DefConfig
@@ -529,7 +587,7 @@ func TestVerif_C35_validheight(t *testing.T) {
 	config.DefConfig.Common.GasPrice = 0
 	config.DefConfig.Consensus.MaxTxInBlock = 60000
 
-	e := &c35vEnv{r: r}
+	e := &c35vEnv{r: r, pfx: pfx, rootA0: rootA0}
 	e.buildAlphabet(r.Thorough())
 	e.stateless = stateless.NewValidatorPool(2)
 	e.stateful = stateful.NewValidatorPool(1)
@@ -538,8 +596,15 @@ func TestVerif_C35_validheight(t *testing.T) {
 	c35vCache.Put(ont.GenBalanceKey(nutils.OngContractAddress, e.sender), cstates.NativeTokenBalanceFromInteger(1000000000).MustToStorageItemBytes())
 
 	depth := r.Pick(6, 7)
-	r.Rule("breadth-first search over histories of: submit any of the pre-signed transactions (one EIP-155 sender: nonces 0.. and a competing higher-priced nonce-0 transaction; native txs) through the real handleTransaction/validators/handleRsp; build a proposal with the height the REAL vbft Server.validHeight returns (real getTxPool + IncrementValidator.Verify as makeProposal does); seal+persist a block (the own proposal, a single transaction proposed elsewhere, or empty) = the ledger advances and one persisted-event is queued for the pool and one for the consensus-side validator; deliver the oldest queued event to the pool (with and without re-verification of the remaining pool) or to the validator, in any order relative to each other, to submissions and to proposals; reset of the validator. State = ledger model + complete pool + validator window + both event queues; every proposal is checked against the ledger for duplicate hash / tx already on chain / consecutive nonces from the account nonce")
-	r.Bound(fmt.Sprintf("unit validheight: %d transactions in the alphabet, initial state = steady node at height %d with a 2-block validator window, each event queue <= %d blocks, depth<=%d", len(e.txs), c35vH0, c35vMaxLag, depth))
+	root := fmt.Sprintf("steady node at height %d with a 2-block validator window", c35vH0)
+	if rootA0 {
+		depth = r.Pick(7, 8)
+		root = fmt.Sprintf("steady node at height %d with a 2-block validator window whose last block (on chain, delivered to pool and validator) carried the sender's nonce-0 transaction: account nonce 1; alphabet = nonces 1.. of that sender (competing same-nonce transactions) and a native tx", c35vH0)
+		r.Rule("unit restart: the search of unit validheight (same events, same oracle, validator reset enabled in every state) from an initial state in which the validator window has already seen the sender, one level deeper, so that every history reset -> two or more further blocks delivered to the validator (one carrying the sender's next nonce, sealed elsewhere or own proposal) -> submission -> proposal is covered")
+	} else {
+		r.Rule("breadth-first search over histories of: submit any of the pre-signed transactions (one EIP-155 sender: nonces 0.. and a competing higher-priced nonce-0 transaction; native txs) through the real handleTransaction/validators/handleRsp; build a proposal with the height the REAL vbft Server.validHeight returns (real getTxPool + IncrementValidator.Verify as makeProposal does); seal+persist a block (the own proposal, a single transaction proposed elsewhere, or empty) = the ledger advances and one persisted-event is queued for the pool and one for the consensus-side validator; deliver the oldest queued event to the pool (with and without re-verification of the remaining pool) or to the validator, in any order relative to each other, to submissions and to proposals; reset of the validator. State = ledger model + complete pool + validator window + both event queues; every proposal is checked against the ledger for duplicate hash / tx already on chain / consecutive nonces from the account nonce")
+	}
+	r.Bound(fmt.Sprintf("unit %s: %d transactions in the alphabet, initial state = %s, each event queue <= %d blocks, depth<=%d", unit, len(e.txs), root, c35vMaxLag, depth))
 	r.Assume("validator verdicts are delivered before the next event; 'on chain' = sealed and persisted (the ledger answers for every sealed block); balances always suffice; pre-execution on re-verification passes")
 	cfg := xs.Config{Init: e.init, Events: e.events, Apply: e.apply, Key: e.keyRec, Check: e.check, MaxDepth: depth,
 		MaxStates: r.Pick(400000, 2000000), ShardFirst: true}
@@ -565,5 +630,5 @@ func TestVerif_C35_validheight(t *testing.T) {
 	if r.R.NViolations >= 20 {
 		r.Capped("exploration stopped after 20 violations")
 	}
-	r.Class(fmt.Sprintf("vh.longest-proposal=%d", e.maxProp))
+	r.Class(fmt.Sprintf(e.pfx+"longest-proposal=%d", e.maxProp))
 }
